@@ -185,7 +185,8 @@ func genStmts() string {
 			{"mpc/bls/tbls.go", "localCreatePublicKeys"}, {"mpc/bls/tbls.go", "localAggregatePublicKeys"}, {"mpc/bls/tbls.go", "localAggregateSignatures"},
 			{"mpc/ps/sss.go", "Polynomial.ValueAt"}, {"mpc/ps/sss.go", "Shares.reconstruct"}, {"mpc/ps/sss.go", "SSS.Gen"}, {"mpc/ps/sss.go", "lagrangeCoefficient"},
 			{"mpc/ps/choose.go", "chooseKoutOfN"}, {"mpc/ps/choose.go", "choose"}, {"mpc/ps/choose.go", "concatInts"},
-			{"mpc/ps/tps.go", "localAggregatePublicKeys"}, {"mpc/ps/tps.go", "localAggregateECPoints"}}},
+			{"mpc/ps/tps.go", "localAggregatePublicKeys"}, {"mpc/ps/tps.go", "localAggregateECPoints"},
+			{"mpc/bls/mpc.go", "TBLS.assembleThresholdPublicKey"}, {"mpc/ps/tps.go", "TPS.assembleThresholdPublicKey"}}},
 		{"adapter", []fref{{"mpc/binance/ecdsa/mpc.go", "party.ClassifyMsg"}, {"mpc/binance/ecdsa/mpc.go", "party.OnMsg"}, {"mpc/binance/ecdsa/mpc.go", "party.Sign"},
 			{"mpc/binance/ecdsa/mpc.go", "hashToInt"}, {"mpc/binance/ecdsa/mpc.go", "digest"}, {"mpc/binance/ecdsa/mpc.go", "party.sendMessages"},
 			{"mpc/binance/ecdsa/mpc.go", "party.Init"}, {"mpc/binance/ecdsa/mpc.go", "party.locatePartyIndex"}, {"mpc/binance/ecdsa/mpc.go", "partyIDsFromNumbers"},
